@@ -150,7 +150,7 @@ def gen_project(rnd):
         prev = [t for t in targets if (t['sub'] == '' or sub == 'd1')]     # the root is processed before subdir('d1') ... see order below
         inputs = rnd.sample(prev, min(len(prev), rnd.choice([0, 0, 1]))) if prev else []
         depends = rnd.sample(prev, min(len(prev), rnd.choice([0, 1]))) if prev else []
-        targets.append({'name': f't{i}', 'sub': sub, 'outs': outs, 'inputs': inputs, 'depends': depends, 'default': rnd.random() < 0.5, 'install': rnd.random() < 0.2})
+        targets.append({'name': f't{i}', 'sub': sub, 'outs': outs, 'inputs': inputs, 'depends': depends, 'default': rnd.random() < 0.5, 'install': rnd.random() < 0.2, 'depfile': rnd.random() < 0.4})
     # root targets first, then the subdirectory (a subdir target may refer to root targets, not vice versa)
     root = [t for t in targets if t['sub'] == '']
     d1 = [t for t in targets if t['sub'] == 'd1']
@@ -165,6 +165,8 @@ def gen_project(rnd):
             parts.append('input: [' + ', '.join(x['name'] for x in t['inputs']) + ']')
         if t['depends']:
             parts.append('depends: [' + ', '.join(x['name'] for x in t['depends']) + ']')
+        if t.get('depfile'):
+            parts.append("depfile: 'gen.d'")        # the same depfile name for several targets of one directory is legal
         if t['default']:
             parts.append('build_by_default: true')
         if t['install']:
@@ -369,7 +371,70 @@ def _kinds_chunk(chunk):
     return len(chunk), nt, fails
 
 
+ALIASES = ['run-target-top-level', 'run-target-inside-subproject', 'subproject-run-target-from-top-level', 'alias-of-alias-in-subproject', 'custom-target-in-subproject']
+
+
+def _alias_chunk(chunk):
+    """alias_target() of run targets / aliases / custom targets, at top level and across a subproject boundary: the written
+    manifest is closed (every input exists or is produced by a statement) and the alias reaches what it names"""
+    repo = os.environ.get('VERIF_REPO', '/repo')
+    fails, nt = [], 0
+    for kind in chunk:
+        d = tempfile.mkdtemp(prefix='c04alias')
+        try:
+            src, build = os.path.join(d, 'src'), os.path.join(d, 'b')
+            os.makedirs(os.path.join(src, 'subprojects', 'sp'))
+            RT = "rt = run_target('rt', command: [py, '-c', 'pass'])\n"
+            CT = "ct = custom_target('ct', output: 'ct.out', command: [py, '-c', 'pass', '@OUTPUT@'])\n"
+            top, sub = "project('p')\npy = find_program('python3')\n", "project('sp')\npy = find_program('python3')\n"
+            if kind == 'run-target-top-level':
+                top += RT + "alias_target('al', rt)\n"
+                want = ('al', 'rt')
+            elif kind == 'run-target-inside-subproject':
+                top += "subproject('sp')\n"
+                sub += RT + "alias_target('inner', rt)\n"
+                want = ('sp@@inner', 'sp@@rt')
+            elif kind == 'subproject-run-target-from-top-level':
+                top += "sp = subproject('sp')\nalias_target('al', sp.get_variable('rt'))\n"
+                sub += RT
+                want = ('al', 'sp@@rt')
+            elif kind == 'alias-of-alias-in-subproject':
+                top += "subproject('sp')\n"
+                sub += CT + "a1 = alias_target('a1', ct)\nalias_target('a2', a1)\n"
+                want = ('sp@@a2', 'subprojects/sp/ct.out')
+            else:
+                top += "sp = subproject('sp')\nalias_target('al', sp.get_variable('ct'))\n"
+                sub += CT
+                want = ('al', 'subprojects/sp/ct.out')
+            open(os.path.join(src, 'meson.build'), 'w').write(top)
+            open(os.path.join(src, 'subprojects', 'sp', 'meson.build'), 'w').write(sub)
+            r = subprocess.run([sys.executable, os.path.join(repo, 'meson.py'), 'setup', build, src], capture_output=True, text=True, env=dict(os.environ, NINJA=stub_ninja(d)))
+            case = {'kind': kind}
+            if r.returncode != 0:
+                fails.append({'case': case, 'stage': 'configure', 'detail': 'a valid project was rejected: ' + (r.stdout + r.stderr)[-300:]})
+                continue
+            nt += 1
+            try:
+                problems, prod, reach = audit(build, open(os.path.join(build, 'build.ninja'), encoding='utf-8').read())
+            except Exception as ex:
+                fails.append({'case': case, 'stage': 'manifest', 'detail': f'the manifest cannot be read: {type(ex).__name__}: {ex}'})
+                continue
+            if want[0] not in prod:
+                problems.append(f'no statement for the alias {want[0]!r}')
+            elif want[1] not in reach(want[0]):
+                problems.append(f'the alias {want[0]!r} does not reach {want[1]!r}')
+            for pr in problems[:3]:
+                fails.append({'case': case, 'stage': 'manifest', 'detail': pr})
+        finally:
+            shutil.rmtree(d, ignore_errors=True)
+    return len(chunk), nt, fails
+
+
 def run(REG, tier, seed, jobs):
+    aev, ant, afails = pmap(_alias_chunk, chunked(iter(ALIASES), 1), jobs)
+    apart = {'name': 'C04/bounded/alias-targets-across-subprojects', 'function': 'meson setup (ninja back end, stub ninja) -> build.ninja',
+             'bound': f'{len(ALIASES)} projects: alias_target() of a run target, of another alias, of a custom target — in the top-level project, inside a subproject, and from the top level onto a target of a subproject',
+             'evaluations': aev, 'distinct_nontrivial': ant, 'rule': 'every project', 'exhaustive': True, 'failures': afails}
     kinds = [(k, f) for k in KINDS for f in ('test', 'benchmark')]
     kev, knt, kfails = pmap(_kinds_chunk, chunked(iter(kinds), 1), jobs)
     kpart = {'name': 'C04/bounded/test-program-kinds-are-prerequisites', 'function': 'meson setup (ninja back end, stub ninja) -> build.ninja',
@@ -378,10 +443,11 @@ def run(REG, tier, seed, jobs):
     n = 160 if tier == 'quick' else 3000
     seeds = [seed * 100003 + i for i in range(n)]
     ev, nt, fails = pmap(_graph_chunk, chunked(iter(seeds), 5), jobs)
-    return {'parts': [kpart, {'name': 'C04/bounded/generated-target-graphs-through-meson-setup', 'function': 'meson setup (ninja back end, stub ninja) -> build.ninja',
-                       'bound': f'{n} generated projects: <= 5 custom targets with 1-2 outputs over {NAMES!r} in the root and a subdirectory, inputs/depends on earlier targets, build_by_default / install; <= 3 compiled C targets (executable, static / shared / both libraries linking earlier libraries, generator-produced sources); tests, alias and run targets; layout mirror/flat, unity on/off, default_library shared/static/both',
+    return {'parts': [apart, kpart, {'name': 'C04/bounded/generated-target-graphs-through-meson-setup', 'function': 'meson setup (ninja back end, stub ninja) -> build.ninja',
+                       'bound': f'{n} generated projects: <= 5 custom targets with 1-2 outputs over {NAMES!r} in the root and a subdirectory, inputs/depends on earlier targets, build_by_default / install, depfiles (one name shared by several targets); <= 3 compiled C targets (executable, static / shared / both libraries linking earlier libraries, generator-produced sources); tests, alias and run targets; layout mirror/flat, unity on/off, default_library shared/static/both',
                        'evaluations': ev, 'distinct_nontrivial': nt, 'rule': 'non-trivial: configured, or rejected for a collision', 'exhaustive': False, 'failures': fails}]}
 
 
 CHECKS = {'C04/bounded/generated-target-graphs-through-meson-setup': (_graph_chunk, lambda c: c['generator_seed']),
+          'C04/bounded/alias-targets-across-subprojects': (_alias_chunk, lambda c: c['kind']),
           'C04/bounded/test-program-kinds-are-prerequisites': (_kinds_chunk, lambda c: (c['kind'], c['function']))}
